@@ -1,11 +1,11 @@
 \* design run, quick tier: the D menus with the shorter plans
 SPECIFICATION Spec
 CONSTANTS
-  Classes <- DesignClasses
-  Heads <- DHeads
+  Classes <- DClassesQ
+  Heads <- DHeadsQ
   Menu <- DMenu
   Plans <- DPlansQ
-  Wraps <- DWraps
+  Wraps <- DWrapsQ
   NoBarChoices <- DNoBar
   ArgVecs <- MCArgVecs
   CheckArgs = {2}
